@@ -12,8 +12,10 @@ Stage 3 (the specification is not vacuous): hand-made malformed messages (corpus
 and systematic mutations of real datagrams must be rejected by both parsers; hand-written legal
 messages (corpus/C10/wellformed*) must be accepted; the two parsers must agree on every mutant."""
 import os
+import collections
 import vlib
 import wirelib
+import srvlib
 from wirelib import WIRE
 
 DOMAIN = b't.example.com'
@@ -435,9 +437,37 @@ def py_verdict(dg):
 
 # ------------------------------------------------------------------------------------------
 
+def history_echo(rep, ctx):
+    """the echo clause over histories: every answer the real server emits in a session history (held queries, queries
+    re-delivered with a new id or from another address while their answer is cached, duplicates of pending queries)
+    carries the id and question of a query that was received FROM THE ADDRESS IT IS SENT TO and not answered yet.
+    Reuses the history generator and the multiset matcher of the C14 check on a small set of targeted histories."""
+    if 'srvh' not in ctx.exe:
+        return
+    import c14
+    n = 60 if rep.tier == 'quick' else 600
+    cases, _ = c14.gen_targeted(rep.seed, n, 90, tag='c10-echo')
+    rc, impl, err = c14.run_full(ctx.exe['srvh'], cases, ctx.work, 'echo')
+    st = collections.Counter()
+    for c, o in zip(cases, impl):
+        if o == '<NO-OUTPUT>':
+            continue
+        try:
+            c14.monitor(c, o, st)
+        except c14.Verdict as v:
+            if v.key.startswith('answer:'):
+                rep.add_violation('echo:history', 'an answer does not echo a query received from the address it was sent to (id / question / '
+                                  'destination): ' + v.what, dict(kind='history', driver='srvh', case=c14.truncate(c, v.event_index), event=v.event_index,
+                                                                 expected='id and question of an unanswered query from that address'))
+                break
+    rep.cov['history_echo'] = dict(histories=len(cases), answers_matched=st.get('answers_matched', 0) or sum(v for k, v in st.items() if k.startswith('answer')),
+                                   counters={k: v for k, v in st.items() if k in ('recv_strict', 'recv_lenient', 'answers', 'answers_matched', 'answered_later')})
+
+
 def check(rep):
     os.environ['VERIF_FULL'] = '1'          # datagrams in full hex (hmain.c putsum / drvlib.ml sum_of_bytes)
-    ctx = vlib.prepare(rep, harnesses={'wire': WIRE}, sanitize=(rep.tier == 'thorough'), model='WIRE')
+    ctx = vlib.prepare(rep, harnesses={'wire': WIRE, 'srvh': srvlib.SRV}, sanitize=(rep.tier == 'thorough'), model='WIRE')
+    history_echo(rep, ctx)
     rng = vlib.rng_for(rep.seed, 'c10')
     stats = dict(corpus=0, K_chunk=0, K_packet=0, K_probe=0, E_in_domain=0, E_out_of_domain=0, W_sweep=0, W_random_names=0,
                  N_ns=0, N_a_ns=0, N_a_www=0, N_none=0, H_handler=0)
@@ -684,6 +714,9 @@ def cname(h):
 
 def replay(rp):
     os.environ['VERIF_FULL'] = '1'
+    if rp.get('kind') == 'history':
+        import c14
+        return c14.replay(rp)
     rep = vlib.Report('C10', 'quick', rp.get('seed', 1))
     ctx = vlib.prepare(rep, harnesses={'wire': WIRE}, sanitize=False, prove_it=False, model='WIRE')
     case = rp.get('case')
